@@ -4,6 +4,7 @@ import AFModel.FloatOps
 import AFModel.Fitness
 import AFModel.SearchTable
 import AFModel.LogPrior
+import AFModel.ResumeCheck
 import AFModel.Generated.C04
 
 open Lean (Json)
@@ -79,6 +80,29 @@ def handleC04 (j : Json) : Except String Json := do
     let v ← vecOfJson (← c.getObjVal? "v")
     let o ← parseOutcome (← c.getObjVal? "o")
     pure (v, o)
+  -- `kind = "resume"`: the object is built with `paths` (check_log_likelihood runs), then called
+  if (getStr j "kind").toOption == some "resume" then
+    let pj ← j.getObjVal? "paths"
+    let paths ← if pj.isNull then pure none else do
+      let sj ← pj.getObjVal? "stored"
+      let stored : Stored Float ← match (← getStr sj "kind") with
+        | "none" => pure Stored.noSummary
+        | "nosample" => pure Stored.noSample
+        | _ => do pure (Stored.sample (← getFloat sj "ll") (← vecOfJson (← sj.getObjVal? "params")))
+      let o ← parseOutcome (← pj.getObjVal? "o")
+      pure (some ((← getBool pj "test_mode"), (← getBool pj "cfg_on"), stored, o))
+    let evaluates := match paths with
+      | some (tm, on, st, _) => checkEvaluates tm on st g
+      | none => false
+    match constructAndRun floatFom floatClose cfg g lp paths calls with
+    | .error r =>
+      return Json.mkObj [("construct", match r with | .passes => "passes" | .searchException => "searchException" | .escapes => "escapes"),
+        ("evaluates", evaluates)]
+    | .ok (rs, st) =>
+      return Json.mkObj [("construct", "passes"), ("evaluates", evaluates),
+        ("results", Json.arr (rs.map jsonOfResult).toArray),
+        ("hist_params", Json.arr (st.params.map jsonOfVec).toArray),
+        ("hist_ll", jsonOfVec st.lls)]
   -- `search` given: the flags come from the table row of that search class, not from the request
   if let some name := (getStr j "search").toOption then
     match findRow Generated.C04.searchRows name with
